@@ -54,9 +54,9 @@ def impl_checks(ctx, cases):
             if "field" not in cs or not np.array_equal(cs["field"], base["field"]) or not np.array_equal(cs["rf"], base["rf"]):
                 bad("a frac-face schedule that is constant in time does not give exactly the scalar setting's result", c, {})
             # wrong schedule lengths are rejected
-            for dl in (-2, -1, 1, 3):
-                n2 = len(t) + dl
-                if n2 < 1:
+            # every length class: empty, a single entry (broadcastable!), two, around len(time), a multiple of it
+            for n2 in sorted({0, 1, 2, len(t) - 2, len(t) - 1, len(t) + 1, len(t) + 3, 2 * len(t)} - {len(t)}):
+                if n2 < 0:
                     continue
                 c4 = dict(c)
                 c4["sched"] = [c["pf"]] * n2
@@ -124,7 +124,7 @@ def run(ctx):
                    traces_validated_against_impl=len([r for r in res if r is not None]),
                    rule="each generated case (both classes, all table families, uniform/quadratic/geometric/random grids) is re-run "
                         "with five time shifts up to 1e6 (tolerance scaled by eps*|shift|/dt_min), as a constant schedule, with "
-                        "schedules of length len(time)+{-2,-1,1,3}, and through the recovery interpolator; shifted cases are also "
+                        "schedules of length 0, 1, 2, len(time)+{-2,-1,1,3}, 2 len(time), and through the recovery interpolator; shifted cases are also "
                         "compared with the float instance of the Coq model")
     ctx.samples += [rescorr.describe(c) for c in cases[:3]]
     ctx.validated_only.append("rounding of the shifted time stamps (float): covered by the scaled tolerance on explored inputs")
